@@ -139,15 +139,15 @@ package v2
 //   entry_sizes             every buffered entry accounts for at least 7 bytes of currentSize
 //   block_fits_count        so a block never holds more than 65535 entries (16-bit count)
 //   entries_encodable       every buffered entry has an encodable key and payload
-//@ global snappyCompressor nonnil
+//@ global snappyCompressor assume v != nil && U_is_snappy(v) == 1
 
 //@ type FileWriter
 //@   guarded_by mu: blockCount, entryCount, closed
-//@   invariant[parts] self.buffer != nil && self.header != nil
+//@   invariant[parts] self.buffer != nil && self.header != nil && self.file != nil
 //@   lockinv mu [buffer_below_threshold] self.buffer.currentSize < self.buffer.maxSize
 //@   lockinv mu [entry_sizes] 0 <= self.buffer.currentSize && 7 * len(self.buffer.entries) <= self.buffer.currentSize
 //@   lockinv mu [block_fits_count] 0 < self.buffer.maxSize && self.buffer.maxSize <= 458745
-//@   lockinv mu [entries_encodable] forall i in 0..len(self.buffer.entries): 1 <= len(self.buffer.entries[i].Key) && len(self.buffer.entries[i].Key) <= 65535 && len(self.buffer.entries[i].Data) <= 2147483648
+//@   lockinv mu [entries_encodable] forall i in 0..len(self.buffer.entries): 1 <= len(self.buffer.entries[i].Key) && len(self.buffer.entries[i].Key) <= 65535 && len(self.buffer.entries[i].Data) <= 2147483647
 
 //@ func (*WriteBuffer).Add(wb, entry) (full)
 //@   property C01
@@ -170,14 +170,17 @@ package v2
 //@   modifies wb.entries, wb.currentSize
 //@   ensures[nothing_buffered] old(len(wb.entries)) == 0 ==> hdr == nil && err == nil
 //@   ensures[count] err == nil && old(len(wb.entries)) > 0 ==> hdr != nil && hdr.EntryCount == old(len(wb.entries))
-//@   ensures[emptied] err == nil ==> len(wb.entries) == 0 && wb.currentSize == 0
+//@   requires[size_nonneg] wb.currentSize >= 0
+//@   ensures[emptied] err == nil ==> len(wb.entries) == 0 && (old(len(wb.entries)) > 0 ==> wb.currentSize == 0)
 //@   ensures[kept_on_error] err != nil ==> len(wb.entries) == old(len(wb.entries)) && wb.currentSize == old(wb.currentSize)
+//@   ensures[snappy_never_fails] err == nil
 
 // serializeEntries: every buffered entry is encodable when it is serialised.
 //@ func (*WriteBuffer).serializeEntries(wb) (out)
 //@   property C01
 //@   nopanic
 //@   requires[entries_encodable] forall i in 0..len(wb.entries): len(wb.entries[i].Key) <= 65535 && len(wb.entries[i].Data) <= 4294967295
+//@   requires[size_nonneg] wb.currentSize >= 0
 //@   loop 0 invariant[buffer_untouched] len(wb.entries) == old(len(wb.entries))
 
 // WriteEntry (property C01, second sentence): an entry that cannot be encoded faithfully is
@@ -188,15 +191,18 @@ package v2
 //@   nopanic
 //@   overflow: assumed
 //@   modifies *
-//@   ensures[rejects_unencodable] (len(entry.Key) < 1 || len(entry.Key) > 65535 || len(entry.Data) > 2147483648) ==> err != nil
-//@   csensures[rejected_entry_not_buffered] (len(entry.Key) < 1 || len(entry.Key) > 65535 || len(entry.Data) > 2147483648) ==> len(fw.buffer.entries) == old(len(fw.buffer.entries)) && fw.buffer.currentSize == old(fw.buffer.currentSize)
+//@   ensures[rejects_unencodable] (len(entry.Key) < 1 || len(entry.Key) > 65535 || len(entry.Data) > 2147483647) ==> err != nil
+//@   csensures[rejected_entry_not_buffered] (len(entry.Key) < 1 || len(entry.Key) > 65535 || len(entry.Data) > 2147483647) ==> len(fw.buffer.entries) == old(len(fw.buffer.entries)) && fw.buffer.currentSize == old(fw.buffer.currentSize)
 
 //@ func (*FileWriter).flushLocked(fw) (err)
 //@   property C01
 //@   nopanic
 //@   overflow: assumed
 //@   holds fw.mu
+//@   requires[parts] fw.file != nil
 //@   requires[count_fits] len(fw.buffer.entries) <= 65535
 //@   requires[entries_encodable] forall i in 0..len(fw.buffer.entries): len(fw.buffer.entries[i].Key) <= 65535 && len(fw.buffer.entries[i].Data) <= 4294967295
-//@   modifies *
-//@   ensures[flushed] err == nil ==> len(fw.buffer.entries) == 0 && fw.buffer.currentSize == 0
+//@   requires[size_nonneg] fw.buffer.currentSize >= 0
+//@   modifies fw.buffer.entries, fw.buffer.currentSize, fw.blockCount, fw.entryCount, all(fw.header)
+//@   ensures[buffer_emptied_even_on_write_error] len(fw.buffer.entries) == 0 && (old(len(fw.buffer.entries)) > 0 ==> fw.buffer.currentSize == 0)
+//@   ensures[flushed] err == nil ==> len(fw.buffer.entries) == 0 && (old(len(fw.buffer.entries)) > 0 ==> fw.buffer.currentSize == 0)
